@@ -383,6 +383,162 @@ def reflex_decision(repo: Repo) -> RuleRun:
 reflex_decision.rule_id = "C08.REFLEX-DECISION"
 
 
+def reflex_midpoint(repo: Repo) -> RuleRun:
+    """'...written as the three-point arc whose middle point lies on the circle the specification describes, half-way between
+    the end points ON THE INTENDED SIDE' for sector angles in (0, 2*pi) of either sign: arc_from_theta (and whatever it calls:
+    arc_mid, divide_arc, unit_vector) is evaluated by the abstract evaluator over EXACT rational vectors - end points on a
+    rationally rotated circle whose half-angle tangent t comes from a Pythagorean triple, so every norm on the way is rational -
+    for the minor and the reflex sector, both senses. The returned point must be the exact half-way point of the sector."""
+    import math
+    from fractions import Fraction
+
+    from ..peval import NotEvaluable, Raised
+    from ..poly import Poly, Rat, Vec, const_value
+
+    r = RuleRun(PROP, "C08.REFLEX-MIDPOINT", floor=20, what="arc_from_theta returns the exact half-way point of the sector for minor and reflex angles of either sign (abstract evaluation over rational vectors, Pythagorean half-angles)")
+    r.exhaustive = True
+    fn = repo.func("items.edges.arcs.angle.arc_from_theta")
+    r.require(len(fn.params) == 4, "arc_from_theta no longer takes (point_1, point_2, angle, axis)")
+
+    def c(x) -> Rat:
+        return Rat(Poly.const(Fraction(x)))
+
+    def rsqrt(x: Rat) -> Rat:
+        v = const_value(x)
+        if v is None or v < 0:
+            raise NotEvaluable("norm of a non-constant vector")
+        num, den = math.isqrt(v.numerator), math.isqrt(v.denominator)
+        if num * num != v.numerator or den * den != v.denominator:
+            raise NotEvaluable(f"norm {v} is not a rational square (model not closed under this computation)")
+        return c(Fraction(num, den))
+
+    def coerce(x):
+        if isinstance(x, bool):
+            return None
+        if isinstance(x, (int, Fraction)):
+            return c(x)
+        return x if isinstance(x, (Rat, Vec)) else None
+
+    def binop(op, a, b):
+        if not (isinstance(a, (Rat, Vec)) or isinstance(b, (Rat, Vec))):
+            return NO_MATCH
+        a, b = coerce(a), coerce(b)
+        if a is None or b is None:
+            raise NotEvaluable("exact and floating-point quantities mixed")
+        if isinstance(op, ast.Add) and type(a) is type(b):
+            return a + b
+        if isinstance(op, ast.Sub) and type(a) is type(b):
+            return a - b
+        if isinstance(op, ast.Mult):
+            if isinstance(a, Rat) and isinstance(b, Rat):
+                return a * b
+            if isinstance(a, Rat) and isinstance(b, Vec):
+                return b.scale(a)
+            if isinstance(a, Vec) and isinstance(b, Rat):
+                return a.scale(b)
+        if isinstance(op, ast.Div) and isinstance(b, Rat):
+            return a / b if isinstance(a, Rat) else a.scale(c(1) / b)
+        raise NotEvaluable(f"operator {type(op).__name__} on exact quantities")
+
+    ROT = [[Fraction(-2, 3), Fraction(2, 15), Fraction(11, 15)], [Fraction(2, 3), Fraction(-1, 3), Fraction(2, 3)], [Fraction(1, 3), Fraction(14, 15), Fraction(2, 15)]]
+    e1, e2, ax = (Vec(c(ROT[i][k]) for i in range(3)) for k in range(3))
+    centre = Vec((c(2), c(Fraction(-5, 3)), c(Fraction(1, 9))))
+    n = 0
+    wrong: List[str] = []
+    for t in (Fraction(3, 4), Fraction(4, 3), Fraction(5, 12), Fraction(12, 5), Fraction(8, 15), Fraction(15, 8)):
+        hyp = Fraction(math.isqrt((t.numerator**2 + t.denominator**2)), t.denominator)  # sqrt(1 + t^2)
+        cos_h, sin_h = 1 / hyp, t / hyp
+        cos_a, sin_a = (1 - t * t) / (1 + t * t), 2 * t / (1 + t * t)
+        alpha = 2 * math.atan(float(t))
+        for radius in (Fraction(3, 7), Fraction(25)):
+            p1 = centre + e1.scale(c(radius))
+            for label, angle, end_sign, half in (
+                ("minor, counter-clockwise", alpha, 1, (cos_h, sin_h)),
+                ("minor, clockwise", -alpha, -1, (cos_h, -sin_h)),
+                ("reflex, clockwise", alpha - 2 * math.pi, 1, (-cos_h, -sin_h)),
+                ("reflex, counter-clockwise", 2 * math.pi - alpha, -1, (-cos_h, sin_h)),
+            ):
+                p2 = centre + e1.scale(c(radius * cos_a)) + e2.scale(c(radius * sin_a * end_sign))
+                want = centre + e1.scale(c(radius * half[0])) + e2.scale(c(radius * half[1]))
+                tan_half = Fraction(round(math.tan(angle / 2) * 10**9), 10**9)
+                exact_tan = t if math.tan(angle / 2) > 0 else -t
+                if abs(float(exact_tan) - math.tan(angle / 2)) > 1e-9:
+                    raise AnalysisError("internal: half-angle tangent of the scenario is inconsistent")
+
+                def hook(ev, call: ast.Call, name, exact_tan=exact_tan):
+                    nm = (name or "").split(".")[-1]
+                    args = None
+                    if nm in ("asarray", "array", "asanyarray") and call.args:
+                        return ev.eval(call.args[0])
+                    if nm == "norm" and call.args:
+                        v = ev.eval(call.args[0])
+                        if isinstance(v, Vec):
+                            return rsqrt(v.dot(v))
+                        if isinstance(v, Rat):
+                            return v if (const_value(v) or 0) >= 0 else c(0) - v
+                    if nm in ("cross", "dot") and len(call.args) == 2:
+                        a, b = ev.eval(call.args[0]), ev.eval(call.args[1])
+                        if isinstance(a, Vec) and isinstance(b, Vec):
+                            return a.cross(b) if nm == "cross" else a.dot(b)
+                    if nm == "tan" and call.args:
+                        v = ev.eval(call.args[0])
+                        if isinstance(v, float) and abs(math.tan(v) - float(exact_tan)) < 1e-9:
+                            return c(exact_tan)
+                        raise NotEvaluable("tan of something else than the half sector angle")
+                    if nm == "linspace" and len(call.args) >= 2:
+                        a, b = ev.eval(call.args[0]), ev.eval(call.args[1])
+                        num = None
+                        for kw in call.keywords:
+                            if kw.arg == "num":
+                                num = ev.eval(kw.value)
+                        if num is None and len(call.args) > 2:
+                            num = ev.eval(call.args[2])
+                        if isinstance(a, Vec) and isinstance(b, Vec) and isinstance(num, int) and num >= 2:
+                            return [a + (b - a).scale(c(Fraction(i, num - 1))) for i in range(num)]
+                    if nm == "abs" and call.args:
+                        v = ev.eval(call.args[0])
+                        if isinstance(v, float):
+                            return abs(v)
+                    return NO_MATCH
+
+                ev = Evaluator(repo=repo, module=fn.module, call_hook=hook, bind={"np.pi": math.pi, "numpy.pi": math.pi, "math.pi": math.pi})
+                ev.binop_hook = binop
+                ev.extra_types = (Rat, Vec, Fraction)
+                ev.float_arith = True
+                key = f"t={t}:r={radius}:{label}"
+                n += 1
+                try:
+                    got = ev.call_funcinfo(fn, [p1, p2, angle, ax])
+                except Raised as err:
+                    r.bad(fn, f"arc_from_theta raises {err.exc_name} for a {label} sector of {math.degrees(angle):.1f} deg", fn.node, key=key)
+                    continue
+                except NotEvaluable as err:
+                    raise AnalysisError(f"arc_from_theta not evaluable over exact rational vectors ({label}, t={t}): {err}") from err
+                ok = isinstance(got, Vec) and all((a - b).is_zero() for a, b in zip(got.c, want.c))
+                where = ""
+                if isinstance(got, Vec) and not ok:
+                    d = [const_value(a - b) for a, b in zip(got.c, want.c)]
+                    off = math.sqrt(sum(float(x) ** 2 for x in d if x is not None))
+                    where = f": the point returned is {off / float(radius):.3f} radii away from the half-way point of the sector"
+                if ok:
+                    r.ok(fn, f"sector {math.degrees(angle):.1f} deg ({label}), radius {radius}: exact half-way point", key=key)
+                else:
+                    wrong.append(f"sector angle {math.degrees(angle):.1f} deg ({label}), radius {radius}{where}")
+    if wrong:
+        r.bad(
+            fn,
+            f"arc_from_theta does not return the half-way point of the sector for {len(wrong)} of {n} exactly evaluated sectors, e.g. {wrong[0]}; {wrong[-1]} - for a sector of more than half a turn "
+            "that is the middle of the COMPLEMENTARY arc: the edge is written on the other side of its centre and its length is radius * (2*pi - angle)",
+            fn.node,
+            key="half-way-point",
+        )
+    r.require(n >= 20, f"only {n} sectors examined")
+    return r
+
+
+reflex_midpoint.rule_id = "C08.REFLEX-MIDPOINT"
+
+
 def adjust_only_when_needed(repo: Repo) -> RuleRun:
     """'An arc given by origin (with flatness 1 and an equidistant origin) ... lies on the circle the specification describes':
     arc_from_origin moves the given centre only when the origin is NOT equidistant from the end points or a flatness other than 1
@@ -474,4 +630,4 @@ def no_memo(repo: Repo) -> RuleRun:
 
 no_memo.rule_id = "C08.NO-MEMO"
 
-RULES = [trig_domain, arg_pairing, affine_kinds, sign_flows, circumcentre, reflex_decision, adjust_only_when_needed, validity_tolerance, no_memo]
+RULES = [trig_domain, arg_pairing, affine_kinds, sign_flows, circumcentre, reflex_decision, reflex_midpoint, adjust_only_when_needed, validity_tolerance, no_memo]
